@@ -32,7 +32,7 @@ Qed.
 (* ------------------------------------------------------------------ *)
 Ltac ssimpl :=
   cbn [hs tree disp_of pipe_of batch clq_of cap cbcount race tr
-       lost with_lost with_hs with_tree with_disp with_pipes with_batch with_clqs with_cbcount with_race with_tr
+       lost with_lost stopf with_stopf set_stopf with_hs with_tree with_disp with_pipes with_batch with_clqs with_cbcount with_race with_tr
        upd_h set_disp set_pipe set_clq log snap] in *.
 
 
@@ -45,13 +45,15 @@ Lemma get_wclqs s v h : get (with_clqs s v) h = get s h. Proof. reflexivity. Qed
 Lemma get_wcb s v h : get (with_cbcount s v) h = get s h. Proof. reflexivity. Qed.
 Lemma get_wrace s v h : get (with_race s v) h = get s h. Proof. reflexivity. Qed.
 Lemma get_wlost s v h : get (with_lost s v) h = get s h. Proof. reflexivity. Qed.
+Lemma get_wstopf s v h : get (with_stopf s v) h = get s h. Proof. reflexivity. Qed.
+Lemma get_sstopf s l b h : get (set_stopf s l b) h = get s h. Proof. reflexivity. Qed.
 Lemma get_log s e h : get (log s e) h = get s h. Proof. reflexivity. Qed.
 Lemma get_spipe s l p h : get (set_pipe s l p) h = get s h. Proof. reflexivity. Qed.
 Lemma get_sdisp s l p h : get (set_disp s l p) h = get s h. Proof. reflexivity. Qed.
 Lemma get_sclq s l p h : get (set_clq s l p) h = get s h. Proof. reflexivity. Qed.
-Ltac gs_in H := repeat first [rewrite get_wtr in H | rewrite get_wtree in H | rewrite get_wdisp in H | rewrite get_wpipes in H | rewrite get_log in H | rewrite get_spipe in H | rewrite get_sdisp in H | rewrite get_sclq in H | rewrite get_wbatch in H | rewrite get_wclqs in H | rewrite get_wcb in H | rewrite get_wrace in H | rewrite get_wlost in H].
+Ltac gs_in H := repeat first [rewrite get_wtr in H | rewrite get_wtree in H | rewrite get_wdisp in H | rewrite get_wpipes in H | rewrite get_log in H | rewrite get_spipe in H | rewrite get_sdisp in H | rewrite get_sclq in H | rewrite get_wbatch in H | rewrite get_wclqs in H | rewrite get_wcb in H | rewrite get_wrace in H | rewrite get_wlost in H | rewrite get_wstopf in H | rewrite get_sstopf in H].
 Ltac gs := repeat first [rewrite get_wtr | rewrite get_wtree | rewrite get_wdisp | rewrite get_wpipes
-                        | rewrite get_log | rewrite get_spipe | rewrite get_sdisp | rewrite get_sclq | rewrite get_wbatch | rewrite get_wclqs | rewrite get_wcb | rewrite get_wrace | rewrite get_wlost].
+                        | rewrite get_log | rewrite get_spipe | rewrite get_sdisp | rewrite get_sclq | rewrite get_wbatch | rewrite get_wclqs | rewrite get_wcb | rewrite get_wrace | rewrite get_wlost | rewrite get_wstopf | rewrite get_sstopf].
 
 Lemma get_upd_same s h f : h < length (hs s) -> get (upd_h s h f) h = f (get s h).
 Proof. intros; unfold get; ssimpl; apply nth_upd_same; auto. Qed.
@@ -354,6 +356,7 @@ Proof.
   - destruct (sig =? 0); [reflexivity|].
     destruct (deliver s sig) as [s1 r] eqn:E. ssimpl.
     pose proof (deliver_misc s sig) as D. rewrite E in D. apply D.
+  - destruct (_ && _); ssimpl; auto using stop_batch.
 Qed.
 
 Lemma script_batch fx os : forall s, batch (script fx s os) = batch s.
@@ -397,6 +400,8 @@ Section Rule.
     (h_dispatched (get s h) <? h_caught (get s h)) = false ->
     P CMid (log (upd_h s h h_set_closed) (ECloseCb h)).
   Hypothesis H_end : forall s l, P CMid s -> P CTop (snap (log s (ERunEnd l))).
+  Hypothesis H_stopf : forall s l b, P CMid s -> P CMid (set_stopf s l b).
+  Hypothesis H_fork : forall s l, P CTop s -> batch s = [] -> P CTop (snap (loop_fork s l)).
 
   Lemma rule_script c os : c <> CMid -> forall s, P c s -> P c (script fx s os).
   Proof. intros Hc; induction os; intros; simpl; auto. Qed.
@@ -444,10 +449,13 @@ Section Rule.
     P CTop (dispatch fx fs fr beh fuel s l) /\ batch (dispatch fx fs fr beh fuel s l) = [].
   Proof.
     intros HP Hb. unfold dispatch.
+    destruct (stopf (log s (ERunBegin l)) l).
+    { split; [apply H_end, H_stopf; auto | exact Hb]. }
     destruct (rule_event fuel l (log s (ERunBegin l))) as [A B]; auto.
     destruct (rule_finish_all l (clq_of (signal_event fx fs fr beh fuel (log s (ERunBegin l)) l) l)
-                (set_clq (signal_event fx fs fr beh fuel (log s (ERunBegin l)) l) l [])) as [C D]; auto.
-    intros h Hh. apply H_q_clq. eapply H_q0; eauto.
+                (set_clq (signal_event fx fs fr beh fuel (log s (ERunBegin l)) l) l [])) as [C D];
+      [auto | auto | intros h Hh; apply H_q_clq; eapply H_q0; eauto |].
+    split; [apply H_end, H_stopf; exact C | exact D].
   Qed.
 
   Lemma rule_top fuel s o : P CTop s -> batch s = [] ->
@@ -456,7 +464,9 @@ Section Rule.
     intros HP Hb.
     assert (G : P CTop (api_snap fx s o) /\ batch (api_snap fx s o) = []).
     { split; [apply H_api; auto; discriminate|]. unfold api_snap. ssimpl. rewrite api_batch; auto. }
-    destruct o; auto. simpl. apply rule_dispatch; auto.
+    destruct o; auto.
+    - simpl. apply rule_dispatch; auto.
+    - simpl. split; [apply H_fork; auto | exact Hb].
   Qed.
 
   Theorem rule_run fuel os : forall s, P CTop s -> batch s = [] ->
@@ -1132,7 +1142,7 @@ Qed.
 
 Lemma mode_step_idle e h : ~ is_start_of h e -> mode_step e h MIdle = MIdle.
 Proof.
-  destruct e as [o r|o|h' sg|h'|h'|l|l|d a|dh ds]; simpl; auto.
+  destruct e as [o r|o|h' sg|h'|h'|l|l|d a|dh ds|fl fi]; simpl; auto.
   - destruct o; simpl; auto.
     + intros N. destruct (Nat.eqb_spec h0 h); auto. congruence.
     + intros N. destruct (Nat.eqb_spec h0 h); auto. congruence.
@@ -1195,7 +1205,7 @@ Proof.
     specialize (IH t h sig N O Hm (fun e' H => Hn e' (or_intror H))).
     assert (He : ~ is_api_on h e) by (apply Hn; simpl; auto).
     cbn [app mode_of].
-    destruct e as [o r|o|h' sg|h'|h'|l|l|d a|dh ds]; cbn [mode_step count_cb]; auto.
+    destruct e as [o r|o|h' sg|h'|h'|l|l|d a|dh ds|fl fi]; cbn [mode_step count_cb]; auto.
     + destruct o; simpl in He; cbn [mode_step]; auto.
       * destruct (Nat.eqb_spec h0 h); [contradiction|auto].
       * destruct (Nat.eqb_spec h0 h); [contradiction|auto].
@@ -2856,7 +2866,7 @@ Lemma mode_sig_nonzero t x :
 Proof.
   induction t as [|e t IH]; simpl; [repeat split; discriminate|].
   destruct IH as (a&b&d).
-  destruct e as [o r|o|h' s'|h'|h'|l|l|dd aa|dh ds]; simpl; auto.
+  destruct e as [o r|o|h' s'|h'|h'|l|l|dd aa|dh ds|fl fi]; simpl; auto.
   - destruct o; simpl; auto.
     + destruct (h =? x); auto. unfold mode_start. destruct (Nat.eqb_spec sig 0); auto.
       destruct (negb _); [repeat split; discriminate|].
